@@ -14,6 +14,8 @@
   `VH_BAD_VALIDATORS`), and the real CLI in a child process on generated projects (`cli` stream).
 -/
 import Gleece.Generated.ValidationRules
+import Gleece.Generated.CliCommands
+import Gleece.Model.Cli
 import Gleece.Model.Paths
 import Gleece.Model.IR
 namespace Gleece.Crash
@@ -59,3 +61,27 @@ theorem unwrapArray_idem (s : List Char) : unwrapArray (unwrapArray s) = unwrapA
     · rfl
 
 end Gleece.Crash
+
+/-! ### the command-line wrappers: a failure of the generation function is the run's exit status -/
+namespace Gleece.Cli
+
+/-- a wrapper that propagates the failure turns the function's contract into the run's contract -/
+theorem wrap_contract (c : Cmd) (f : FnResult) (h : FnContract c f = true) : Contract c (wrap true f) = true := by
+  cases c <;> cases hf : f.failed <;> simp_all [Contract, FnContract, wrap, artifacts]
+
+/-- … and one that does not propagate it breaks the contract on EVERY failing run: exit 0 without the artifacts -/
+theorem wrap_without_propagation_breaks (c : Cmd) (f : FnResult) (hf : f.failed = true) (hs : f.spec = false) (hr : f.routes = false) :
+    Contract c (wrap false f) = false := by
+  cases c <;> simp [Contract, wrap, artifacts, hf, hs, hr]
+
+/-- **Every command of the program that calls a generation entry point propagates its failure** (regenerated from
+    cmd/*.go on every run: `os.Exit(<non-zero>)` in the `if err != nil` block, or `return err` from a `RunE`) -/
+theorem every_generating_command_propagates :
+    ∀ row ∈ Gleece.Generated.cliCommands, row.2.2.1 = true → row.2.2.2 = true := by decide
+
+/-- the four ways of asking for generation are all there -/
+theorem generating_commands_present :
+    ∀ u ∈ ["gleece", "spec", "routes", "spec-and-routes"],
+      (Gleece.Generated.cliCommands.any fun row => row.2.1 = u && row.2.2.1) = true := by decide
+
+end Gleece.Cli
